@@ -573,10 +573,14 @@ def generate(prop, rng, tier):
     if prop == "C02":
         tr["spec_dtype"] = rng.choice([None, None, "int", "f32"])
         tr["scribble"] = rng.random() < 0.2
+        if rng.random() < 0.25:
+            # the old-style counters (wrappers around the same detectors), fed in chunks, loops read between the calls
+            tr["compat"] = {"cuts": sorted(rng.random() for _ in range(rng.choice([0, 1, 1, 2, 3]))), "peek": rng.random() < 0.6}
     tr["refuse"] = rng.randint(1, 3) if rng.random() < 0.12 else 0
     if prop == "C01":
         tr["final_flush"] = rng.random() < 0.25
         tr["scribble"] = rng.random() < 0.3
+        tr["doubling"] = rng.random() < 0.25
     return tr
 
 
@@ -757,6 +761,35 @@ def _execute(prop, trace):
                                                         feats, min(len(o["res"]), 8)))
             if nchunks >= 3:
                 out.count("probe:three_or_more_chunks")
+    if prop == "C01" and trace.get("doubling") and not final_flush and n <= 150:
+        # residue doubling: the caller closes the open loops by feeding the detector its own residuals - the very
+        # array object the residuals property handed out - as one more chunk.  The signal is then s ++ r.
+        for r, (st, rp) in enumerate(zip(state, reps)):
+            if st["dead"] or st["k"] < len(st["bounds"]) - 1 or rp.get("container") == "longdouble":
+                continue
+            try:
+                robj = st["d"].residuals
+                rvals = [float(x) for x in np.asarray(robj, dtype=np.float64)]
+            except Exception as e:     # noqa
+                out.violate("exception", rp["det"] + "/residuals", {"replica": r, "type": type(e).__name__, "msg": str(e)})
+                continue
+            if not rvals or not isinstance(robj, np.ndarray) or robj.ndim != 1:
+                out.count("skipped:doubling_no_residuals")
+                continue
+            ext = list(sig) + rvals
+            st["delivered"].append(rvals)
+            out.steps += 1
+            try:
+                _feed(st["d"], robj, False)
+                o = observe(st["d"], rp["det"], rp["rec"])
+            except RealCodeError as e:
+                out.violate("exception", "%s/%s" % (rp["det"], e.where), {"replica": r, "consumed": len(ext), "type": e.exc_type, "msg": e.msg})
+                continue
+            log.add(r, len(ext), o)
+            out.count("history:residue_doubling")
+            check_c01(out, st, rp, r, ext, o, False)
+    if prop == "C02" and trace.get("compat") and 2 <= n <= 150:
+        check_c02_compat(out, trace, sig, log)
     if prop == "C02":
         sd = None
         if trace.get("spec_dtype") in ("int", "f32"):
@@ -953,6 +986,46 @@ def check_c02_spec(out, sig, log, spec_dtype=None):
                     out.count("probe:equal_cycle_ranges")
             if det == "tp" and got != want and m == n:
                 out.count("probe:tp_order_differs_from_fp")
+
+
+def check_c02_compat(out, trace, sig, log):
+    """The old-style entry points (pylife.stress.rainflow.RainflowCounterThreePoint / RainflowCounterFKM) are the same
+    detectors behind another facade: fed in chunks, with the loops looked at between the calls, they must report what
+    the definition yields."""
+    import pylife.stress.rainflow as RF
+    n = len(sig)
+    cp = trace["compat"]
+    cuts = sorted({min(n - 1, max(1, int(round(f * n)))) for f in cp.get("cuts", [])})
+    bounds = [0] + cuts + [n]
+    cyc, res = ref.four_point(ref.turning_points(sig))
+    hcyc, hres = ref.hcm([v for _, v in ref.interior_reversals(sig)])
+    for name, cls in (("compat-tp", RF.RainflowCounterThreePoint), ("compat-fkm", RF.RainflowCounterFKM)):
+        out.steps += 1
+        try:
+            c = cls()
+            for a, b in zip(bounds[:-1], bounds[1:]):
+                ret = c.process(np.array(sig[a:b], dtype=np.float64))
+                if cp.get("peek"):
+                    # the user looks at the loops so far (and keeps what was handed out)
+                    len(c.loops_from), len(c.loops_to), c.residuals()
+                    out.count("probe:compat_read_between_calls")
+            got = [(float(x), float(y)) for x, y in zip(c.loops_from, c.loops_to)]
+            gres = [float(x) for x in c.residuals()]
+        except Exception as e:    # noqa
+            out.violate("exception", name, {"type": type(e).__name__, "msg": str(e)[:200], "chunks": [b - a for a, b in zip(bounds[:-1], bounds[1:])]})
+            return
+        log.add(name, got, gres)
+        out.count("history:" + name)
+        if name == "compat-fkm":
+            bad = got != [(float(a), float(b)) for a, b in hcyc] or gres != [float(v) for v in hres]
+            want, wres = [(float(a), float(b)) for a, b in hcyc], [float(v) for v in hres]
+        else:
+            want, wres = [(float(a), float(b)) for a, b, _, _ in cyc], [float(v) for _, v in res]
+            bad = Counter(got) != Counter(want) or gres != wres
+        if bad:
+            out.violate("I3-specification", name, {"chunks": [b - a for a, b in zip(bounds[:-1], bounds[1:])], "peek": bool(cp.get("peek")),
+                                                   "got_cycles": got[:20], "want_cycles": want[:20], "got_residual": gres[:12], "want_residual": wres[:12]})
+            return
 
 
 # ------------------------------------------------------------------ marathons (thorough tier only)
@@ -1238,6 +1311,8 @@ def generate_c03(rng, tier):
         tr["twin_cuts"] = sorted(rng.random() for _ in range(rng.choice([1, 1, 2, 3, 6])))
         tr["reuse_buffer"] = rng.random() < 0.3
     tr["final_flush"] = rng.random() < 0.2      # both replicas end with flush=True
+    if rng.random() < 0.25:
+        tr["twin_view"] = rng.choice(["column", "step2"])     # blocks handed over as strided views of a wider array
     if kind == "nan":
         tr["escalate"] = rng.random() < 0.4
     elif rng.random() < 0.15:
@@ -1409,6 +1484,19 @@ def execute_c03(trace):
                         buf = np.array(twin_in[a_:b_], dtype=np.float64)      # the reader's block buffer ...
                         _feed(d2, buf, fl)
                         buf[:] = 1e30                                          # ... is refilled after the call
+                    elif trace.get("twin_view"):
+                        # the block is a channel of a multi-channel recording: a non-contiguous view, not a copy
+                        blk64 = np.asarray(twin_in[a_:b_], dtype=np.float64)
+                        if trace["twin_view"] == "column":
+                            wide = np.full((len(blk64), 3), -1e9)
+                            wide[:, 1] = blk64
+                            view = wide[:, 1]
+                        else:
+                            wide = np.full(2 * len(blk64) + 1, 1e9)
+                            wide[1::2] = blk64
+                            view = wide[1::2]
+                        _feed(d2, view, fl)
+                        out.count("container:twin_view_" + trace["twin_view"])
                     else:
                         _feed(d2, twin_in[a_:b_], fl)
                     # every call that is handed NaN samples says that it drops them (a later call may repeat the
@@ -1481,7 +1569,7 @@ def shrink(prop, trace):
             t = copy.deepcopy(trace)
             t["order"] = []
             yield t
-        for key in ("final_flush", "scribble", "refuse"):
+        for key in ("final_flush", "scribble", "refuse", "doubling", "compat"):
             if trace.get(key):
                 t = copy.deepcopy(trace)
                 t[key] = False
@@ -1514,7 +1602,7 @@ def shrink(prop, trace):
                 yield t
     else:
         tw = trace["twin"]
-        for key in ("reuse_buffer", "escalate", "twin_mixed"):
+        for key in ("reuse_buffer", "escalate", "twin_mixed", "twin_view"):
             if trace.get(key):
                 t = copy.deepcopy(trace)
                 t[key] = False
